@@ -13,7 +13,7 @@ RULE = ("groups built from dicts/lists of Ts / Tsd / raw arrays with unsorted, n
         "support) are compared with the Lean model and with brute-force oracles (keys = sorted integer values, support = pointwise union, "
         "member = samples inside the support, rate = n / duration); group-level count / value_from / trial_count vs per-member results")
 PROVED = ("new_keys, new_member (sort keeps data under its key), new_rejects_dup, new_support_given/union, new_members_restricted, "
-          "select_member / select_preserves / select_rejects_missing, restrict_member, get_member, merge_member / merge_rejects_overlap, "
+          "select_member / select_preserves / select_rejects_missing, restrict_member, get_member, merge_member / merge_rejects_overlap / mergeN_supports / mergeN_member / mergeN_single, "
           "toTsd_toTsgroup_any_sort (any sorting permutation), restrictTo_self")
 NOT_PROVED = ("pointwise characterisation of the n-ary union kernel (correspondence + oracle; C02), key conversion from str/float (harness "
               "passes integer values), rate arithmetic (definitional), group-level count/value_from/trial_count == per member (oracle)")
@@ -85,6 +85,25 @@ KEYFORMS = [lambda k: k, lambda k: str(k), lambda k: float(k), lambda k: np.int6
 
 def in_union(x, sups):
     return any(s <= x <= e for sup in sups for s, e in sup)
+
+
+def merge_oracle(ctx, name, merged, groups, ri, rs, inp):
+    """a successful merge keeps every member's timestamps (those inside its own group's support, which is all of them unless
+    the group was built with bypass_check) under its key — or, with reset_index, at its position"""
+    want = []
+    for grp in groups:
+        sup = list(zip(*iset_ns(grp.time_support)))
+        for key in grp.keys():
+            t = ns_arr(grp[key].index.values)
+            want.append((int(key), t if rs else [x for x in t if any(a <= x <= b for a, b in sup)]))
+    got = [(int(k), ns_arr(merged[k].index.values)) for k in merged.keys()]
+    if ri:
+        want = [(i, t) for i, (_, t) in enumerate(want)]
+    else:
+        want = sorted(want)
+    if got != want:
+        bad = [(a, b) for a, b in zip(got, want) if a != b][:2]
+        ctx.fail("oracle", "%s does not keep each member's timestamps under its key" % name, dict(inp), impl=bad and bad[0][0], expected=bad and bad[0][1])
 
 
 def oracle_group(ctx, g, members, keys, given, bypass, inp):
@@ -182,13 +201,15 @@ def run_history(ctx, k, L):
     oracle_group(ctx, g, members, keys, given, bypass, inp)
     obs, ops = [gstate(g)], []
 
-    def push(name, op, fn):
+    def push(name, op, fn, post=None):
         nonlocal g
         inp["ops"].append(name)
         try:
             r = fn()
         except (ValueError, RuntimeError, KeyError, IndexError) as e:
             obs.append(classify(e)); ops.append(op); return
+        if post is not None:
+            post(r)
         g = r
         obs.append(gstate(g)); ops.append(op)
         sup = iset_ns(g.time_support)
@@ -244,8 +265,25 @@ def run_history(ctx, k, L):
             except (ValueError, RuntimeError):
                 continue
             mem2 = "+".join(enc_member(kk, m) for kk, m in zip(k2, m2)) or "-"
+            if rng.random() < 0.4:
+                # three groups at once: a group in the MIDDLE of the argument list (h) is checked like the last one (h3)
+                k3, m3, given3, _ = build(ctx, k + 2)
+                k3 = [kk + 1000 for kk in k3] if rng.random() < 0.7 else k3
+                if rng.random() < 0.7:
+                    given3 = gstate(g)[0]
+                try:
+                    h3 = construct(k3, m3, given3, False, 0)
+                except (ValueError, RuntimeError):
+                    continue
+                mem3 = "+".join(enc_member(kk, m) for kk, m in zip(k3, m3)) or "-"
+                push("merge3(ri=%s,rs=%s)" % (ri, rs), "M3/%s/%s/%s/%s/%d/%d" % (mem2, "none" if given2 is None else encp(given2), mem3,
+                                                                                 "none" if given3 is None else encp(given3), ri, rs),
+                     lambda: nap.TsGroup.merge_group(g, h, h3, reset_index=ri, reset_time_support=rs),
+                     post=lambda r, g0=g: merge_oracle(ctx, "merge_group(g, h, h3)", r, [g0, h, h3], ri, rs, inp))
+                continue
             push("merge(ri=%s,rs=%s)" % (ri, rs), "M/%s/%s/%d/%d" % (mem2, "none" if given2 is None else encp(given2), ri, rs),
-                 lambda: g.merge(h, reset_index=ri, reset_time_support=rs))
+                 lambda: g.merge(h, reset_index=ri, reset_time_support=rs),
+                 post=lambda r, g0=g: merge_oracle(ctx, "g.merge(h)", r, [g0, h], ri, rs, inp))
         elif c == 7 and ks:
             push("to_tsd.to_tsgroup", "Y", lambda: g.to_tsd().to_tsgroup())
         elif c == 8 and ks:
